@@ -58,11 +58,24 @@ type ObjInv struct {
 	Clauses  []Clause
 }
 
+// GlobalInv is an invariant over package-level variables: established by the
+// package initialiser (an obligation), preserved because nothing but the
+// initialiser stores to them (a structural obligation), assumed at the entry
+// of every function of that package.
+type GlobalInv struct {
+	Props   []string
+	PkgPath string
+	Clause  Clause
+	File    string
+	Line    int
+}
+
 type ContractSet struct {
 	Funcs   map[string]*Contract // by key: "pkgpath::name" for in-repo, "name" for extern
 	Specs   map[string]*SpecFunc
 	Lemmas  []*Lemma
 	ObjInvs map[string]*ObjInv
+	GlobalInvs []*GlobalInv
 	Ghosts  map[string]string // name -> sort
 	GhostTypes map[string][2]string // name -> (package path, Go type expression) for typed reference ghosts
 	Errors  []string
@@ -113,7 +126,7 @@ func newContractSet() *ContractSet {
 var clauseKeywords = map[string]bool{"func": true, "extern": true, "spec": true, "lemma": true, "axiom": true, "objinv": true,
 	"requires": true, "ensures": true, "modifies": true, "loop": true, "invariant": true, "decreases": true, "nowrap": true,
 	"trusted": true, "pure": true, "nilrecv": true, "props": true, "fnfield": true, "iface": true, "ghost": true, "hook": true, "guard": true,
-	"update": true, "when": true, "uf": true, "stable": true, "monitor": true, "unroll": true, "nonil": true, "structural": true}
+	"update": true, "when": true, "uf": true, "stable": true, "monitor": true, "unroll": true, "nonil": true, "structural": true, "globalinv": true}
 
 // parseContractLines parses the //@ lines of one file.
 func (cs *ContractSet) parseLines(lines []string, pkgPath, pkgName, file string, startLine []int) {
@@ -316,6 +329,13 @@ func (cs *ContractSet) parseLines(lines []string, pkgPath, pkgName, file string,
 				oi.Clauses = append(oi.Clauses, c)
 			}
 			cur, curLoop, curHook = nil, nil, nil
+		case "globalinv":
+			// globalinv <props...>: <expr over package-level variables>
+			i := strings.Index(rest, ":")
+			if c, ok := mk(l, strings.TrimSpace(rest[i+1:])); ok {
+				cs.GlobalInvs = append(cs.GlobalInvs, &GlobalInv{Props: strings.Fields(rest[:i]), PkgPath: pkgPath, Clause: c, File: file, Line: l.line})
+			}
+			cur, curLoop, curHook = nil, nil, nil
 		case "uf":
 			name, args, ret := parseUF(rest)
 			cs.UFs[name] = ufInfo{args, ret}
@@ -336,7 +356,7 @@ func (cs *ContractSet) parseLines(lines []string, pkgPath, pkgName, file string,
 				after = true
 				k2, r2 = splitKw(r2)
 			}
-			if k2 != "call" && k2 != "go" && k2 != "store" && k2 != "load" && k2 != "mapwrite" {
+			if k2 != "call" && k2 != "go" && k2 != "store" && k2 != "load" && k2 != "mapwrite" && k2 != "make" {
 				errf(l, "hook/guard: expected call, go or store, got %q", k2)
 				continue
 			}
